@@ -1229,10 +1229,12 @@ func c15MergeOracle(t []string, got string) string {
 		for _, x := range items {
 			want = append(want, tok(x))
 		}
+		// a member that answers NAME_UNKNOWN without having delivered anything does not know the repository and is
+		// ignored; any other error - NAME_UNKNOWN after items included (F34) - is delivered, member 0's first
 		e := ""
-		if c0 != "" && c0 != "NAME_UNKNOWN" {
+		if c0 != "" && !(c0 == "NAME_UNKNOWN" && len(i0) == 0) {
 			e = c0
-		} else if c1 != "" && c1 != "NAME_UNKNOWN" {
+		} else if c1 != "" && !(c1 == "NAME_UNKNOWN" && len(i1) == 0) {
 			e = c1
 		}
 		if e != "" {
